@@ -397,7 +397,7 @@ func c04(c *eng.Ctx) {
 	c.Rule("R1", "terminate ⇒ not forwarded: in every function and closure of the filters, dispatcher, reverse-proxy and response packages no CFG path leads from a terminating call (TerminateWithError, responseError, responsewriters.InternalError/Forbidden/ErrorNegotiated, http.Error, the proxy error handler, WriteHeader(const)) to a forwarding call (next handler's ServeHTTP, proxy ServeHTTP, RoundTrip); in a filter nothing else is written to the response after it", 41)
 	c.Rule("R2", "reason ↔ status: refused TryAcquire ⇒ NewTooManyRequests; Pop error, cluster not proxied (dispatcher and WithUpstreamInfo) ⇒ NewServiceUnavailable; refused impersonation ⇒ responsewriters.Forbidden; each refusal edge answers before any exit or forward; the error travels unchanged to TerminateWithError, which sets Retry-After for 503 and for 429 with a suggested delay before ErrorNegotiated writes the Status", 11)
 	c.Rule("R3", "write allow-list: of the outbound http.Request only Header (clone / empty when nil), URL, Body (nil under ContentLength==0, or a delegating reader), Close=false are stored; the relayed status is res.StatusCode, headers go through copyHeader(rw.Header(), res.Header) after deleting only hop-by-hop keys, the body through copyResponse(rw, res.Body); end-to-end request headers are only touched for the allow-listed keys", 23)
-	c.Rule("R4", "URL rebuild is complete: a url.URL whose Path is taken from the incoming request URL carries RawPath from the same URL on the same paths, and its RawQuery derives from the incoming query", 4)
+	c.Rule("R4", "URL rebuild is complete: a url.URL whose Path is taken from the incoming request URL (or copied field by field from another URL on the forwarding path) carries RawPath from the same source on the same paths, and its RawQuery derives from the incoming query", 4)
 
 	var funcs []*ssa.Function
 	for _, pk := range c04Packages {
@@ -1186,6 +1186,7 @@ func c04R3(c *eng.Ctx, p *c04Preds) {
 	if nWH == 0 {
 		c.Fail("R3", sh, "relayed status = res.StatusCode", sh.Pos(), "the upstream's status is never written to the client")
 	}
+	c04CopyHeader(c)
 	// no store into the response, header mutations only for hop-by-hop keys
 	okStore := true
 	eng.Instrs(sh, func(ins ssa.Instruction) {
@@ -1278,8 +1279,14 @@ func c04R4(c *eng.Ctx, p *c04Preds) {
 			k := 0
 			var seenBases []ssa.Value
 			for _, ps := range stores("Path") {
-				if !fromReqURL(ps.Val) {
-					continue // not a path taken from an incoming request
+				incoming := fromReqURL(ps.Val)
+				// copied from ANOTHER url.URL (an in-place edit of the same URL's Path is not a rebuild)
+				self := c04LoadBase(ps.Addr)
+				copied := sa.DerivesFrom(ps.Val, func(x ssa.Value) bool {
+					return eng.FieldLoadOf(x, c04TURL, "Path") && !c04SameObj(c04LoadBase(x), self)
+				})
+				if !incoming && !copied {
+					continue // neither taken from an incoming request nor copied from another URL
 				}
 				base := c04LoadBase(ps.Addr)
 				dup := false
@@ -1299,13 +1306,16 @@ func c04R4(c *eng.Ctx, p *c04Preds) {
 					if !ok || !eng.FieldAddrOf(st.Addr, c04TURL, "RawPath") || !onBase(st) {
 						return false
 					}
-					return fromReqURL(st.Val) && sa.DerivesFrom(st.Val, func(x ssa.Value) bool {
+					return (fromReqURL(st.Val) || !incoming) && sa.DerivesFrom(st.Val, func(x ssa.Value) bool {
 						return eng.FieldLoadOf(x, c04TURL, "RawPath") || eng.IsResultOf(x, "(*net/url.URL).EscapedPath")
 					})
 				}
 				okRaw := eng.AlwaysAfter(ps, isRaw) || eng.AlwaysBefore(fn, ps, isRaw)
 				c.Check("R4", fn, fmt.Sprintf("forward URL#%d: RawPath travels with Path", k), ps.Pos(), okRaw,
 					"Path is taken from the incoming request URL but RawPath (the original escaping) is not set from the same URL on every path: a request for /…/a%2Fb is forwarded as /…/a/b")
+				if !incoming {
+					continue // a copy of a URL that is not the request's: only the escaping must travel
+				}
 				// RawQuery from the incoming query
 				okQ := false
 				for _, qs := range stores("RawQuery") {
@@ -1572,4 +1582,46 @@ func c04Returned(r *ssa.Return) []ssa.Value {
 		}
 	}
 	return out
+}
+
+// c04CopyHeader: the header copy relays every line. copyHeader(dst, src) must Add, for every key of
+// src and every value under it, that value under that key to dst; and nowhere on the relay
+// path is a header Set once per value with a key that does not change in the innermost loop
+// (only the last value would survive).
+func c04CopyHeader(c *eng.Ctx) {
+	if ch := c.MustFunc(pkgRevProxy, "copyHeader"); ch != nil && len(ch.Params) == 2 {
+		dst, src := ssa.Value(ch.Params[0]), ssa.Value(ch.Params[1])
+		sl := c.Slicer()
+		ok := false
+		for _, ci := range eng.CallsTo(ch, "(net/http.Header).Add") {
+			a := eng.Args(ci)
+			if eng.Receiver(ci) != dst || len(a) != 2 {
+				continue
+			}
+			l := eng.InnermostLoop(ci.Block())
+			if l == nil {
+				continue
+			}
+			fromSrc := func(v ssa.Value) bool { return sl.DerivesFrom(v, func(x ssa.Value) bool { return x == src }) }
+			if fromSrc(a[0]) && fromSrc(a[1]) && eng.LoopInvariant(a[0], l) && !eng.LoopInvariant(a[1], l) {
+				ok = true
+			}
+		}
+		c.Check("R3", ch, "copyHeader adds every value of every key", ch.Pos(), ok,
+			"copyHeader(dst, src) must dst.Add(k, v) for each key k of src and each value v under it: headers that span several lines (Warning, Set-Cookie, Link) are relayed completely")
+	}
+	for _, pk := range []string{pkgRevProxy, pkgDispatcher, pkgResponse} {
+		for _, fn := range c.W.FuncsOf(pk) {
+			for _, ci := range eng.CallsTo(fn, "(net/http.Header).Set") {
+				a := eng.Args(ci)
+				l := eng.InnermostLoop(ci.Block())
+				if l == nil || len(a) != 2 {
+					continue
+				}
+				if eng.LoopInvariant(a[0], l) && !eng.LoopInvariant(a[1], l) {
+					c.Fail("R3", fn, "Header.Set once per value", ci.Pos(), "inside a loop over values the key is the same on every iteration: Set keeps only the last value, the other lines of the header are lost")
+				}
+			}
+		}
+	}
 }
